@@ -34,10 +34,11 @@ const (
 	KAtCallSet  // "atcall KEY sets VAR TYPE (callee params and results) :: EXPR [if COND]": ghost assignment after a call made by this function
 	KObserve    // "observe NAME EXPR": a value reported from the solver's model for replay drivers
 	KValInv     // invariant of every value of a struct type stored in a map: "valinv T (v T) :: EXPR"
+	KExhaustive // "loop K exhaustive": the loop is left only from its header
 )
 
 func (k ClauseKind) String() string {
-	return [...]string{"requires", "ensures", "invariant", "modifies", "cover", "atcall", "returns", "ghostset", "atcallset", "observe", "valinv"}[k]
+	return [...]string{"requires", "ensures", "invariant", "modifies", "cover", "atcall", "returns", "ghostset", "atcallset", "observe", "valinv", "exhaustive"}[k]
 }
 
 type Clause struct {
@@ -502,6 +503,13 @@ func parseSpecFile(path string, ps *PkgSpec, trustedFile bool) error {
 					return fmt.Errorf("%s:%d: loop K ...", path, ln)
 				}
 				r2 := strings.TrimSpace(f[1])
+				if strings.HasPrefix(r2, "exhaustive") {
+					// loop K exhaustive #label @tags   the loop is left only from its header (a range loop: when the
+					// iteration is complete): no return, break or goto out of its body
+					_, label, tags := splitLabelTags(" " + strings.TrimPrefix(r2, "exhaustive"))
+					cur.Clauses = append(cur.Clauses, &Clause{Kind: KExhaustive, Label: label, Tags: tags, Loop: k, File: path, Line: ln})
+					break
+				}
 				var locals []string
 				if strings.HasPrefix(r2, "(") {
 					end := matchParen(r2, 0)
